@@ -72,6 +72,35 @@ def _strip_docstrings(tree: ast.AST) -> None:
                 node.body = node.body[1:] or [ast.copy_location(ast.Pass(), first)]
 
 
+_NEG_OPS = {ast.NotEq: ast.Eq, ast.IsNot: ast.Is, ast.NotIn: ast.In}
+
+
+def _canonical_polarity(tree: ast.AST) -> None:
+    """`if not c: A else: B` is the same program as `if c: B else: A` (likewise `a != b`, `is not`, `not in`, and conditional
+    expressions). A two-armed conditional whose test is negated is turned into its positive form once after parsing, so that no
+    rule can depend on which arm the author wrote first (measured with tools/benign_copy.py invertif). elif chains and
+    one-armed ifs are left alone."""
+    def positive(test: ast.expr):
+        if isinstance(test, ast.UnaryOp) and isinstance(test.op, ast.Not):
+            return test.operand
+        if isinstance(test, ast.Compare) and len(test.ops) == 1 and type(test.ops[0]) in _NEG_OPS:
+            return ast.copy_location(ast.Compare(left=test.left, ops=[_NEG_OPS[type(test.ops[0])]()], comparators=test.comparators), test)
+        return None
+    for node in ast.walk(tree):
+        if isinstance(node, ast.If):
+            if not node.orelse or (len(node.orelse) == 1 and isinstance(node.orelse[0], ast.If)):
+                continue
+            pos = positive(node.test)
+            while pos is not None:
+                node.test, node.body, node.orelse = pos, node.orelse, node.body
+                pos = positive(node.test)
+        elif isinstance(node, ast.IfExp):
+            pos = positive(node.test)
+            while pos is not None:
+                node.test, node.body, node.orelse = pos, node.orelse, node.body
+                pos = positive(node.test)
+
+
 def _inline_return_temporaries(tree: ast.AST) -> None:
     """`x = <expr>` immediately followed by `return x`, where x occurs nowhere in the function except in such pairs, is the same
     program as `return <expr>`: the pairs are folded once after parsing so that no rule can depend on which of the two idioms
@@ -136,6 +165,7 @@ class ModuleInfo:
             self.tree = ast.parse(self.source, filename=str(path))
             _strip_docstrings(self.tree)
             _inline_return_temporaries(self.tree)
+            _canonical_polarity(self.tree)
         except SyntaxError as e:  # pragma: no cover
             raise AnalysisError(f"cannot parse {path}: {e}")
         self.imports: Dict[str, str] = {}  # local name -> dotted target
